@@ -110,4 +110,14 @@ def prepend (st : Store) (r : Nat) (extra : List Comment) : Option (Store × Nat
   | some [] => some (createRef st extra)   -- new entry, new reference (since fix 5884ffb)
   | some (e :: es) => some (st.set r (extra ++ e :: es), r)
 
+/-- `utils::keep_parenthesis_comments` (source_parser.rs, since /repo commit bf0f58a): a parenthesised
+expression is unwrapped; the comments after `(` go in front of the inner expression's own comments,
+those before `)` after them. -/
+def keepParen (st : Store) (r : Nat) (start stop : List Comment) : Option (Store × Nat) :=
+  if start.isEmpty && stop.isEmpty then (st[r]?).map (fun _ => (st, r)) else
+  match st[r]? with
+  | none => none
+  | some [] => some (createRef st (start ++ stop))
+  | some (e :: es) => some (st.set r (start ++ (e :: es) ++ stop), r)
+
 end SamVerif.CommentQueue
